@@ -60,6 +60,10 @@ pub const SANDBOX: &str = "/nvw";
 
 impl Project {
     pub fn abs(&self, rel: &str) -> String {
+        // like PathBuf::join: an absolute path replaces the base
+        if rel.starts_with('/') {
+            return indep::norm(rel);
+        }
         indep::norm(&format!("{}/{}", self.root, rel))
     }
     pub fn config_path(&self) -> String {
@@ -279,18 +283,38 @@ pub fn gen_project(rng: &mut Rng, o: &ProjectOpts) -> Project {
     }
     let out_dir = *r_cfg.pick(&["generated", "src/generated", "out/deep/er", ".", "../gen-out", "src"]);
     let out_dir = if out_dir == "../gen-out" && depth == 0 { "gen-out" } else { out_dir };
-    let sch_name = *r_cfg.pick(&["schema.d.ts", "schema.ts", "types/schema.d.ts", "schema.d.mts"]);
+    let sch_name = *r_cfg.pick(&[
+        "schema.d.ts",
+        "schema.ts",
+        "types/schema.d.ts",
+        "schema.d.mts",
+        "graphql.schema.ts",
+        "schema.generated.d.ts",
+        "schema.gen.mts",
+        "api.v2.d.cts",
+        "schema.tsx",
+        "schema.cts",
+    ]);
     let emit_runtime = r_cfg.chance(1, 6);
     let sch_name = if emit_runtime { "schema.ts" } else { sch_name };
     let with_schema_output = !o.force_module_specifier || r_cfg.chance(1, 2);
+    // outputs may also be configured as absolute paths
+    let abs_out = r_cfg.chance(1, 8);
+    let place = |dir: &str, name: &str, root: &str| -> String {
+        let rel = indep::norm(&format!("{dir}/{name}"));
+        if abs_out { indep::norm(&format!("{root}/{rel}")) } else { rel }
+    };
     if with_schema_output {
-        g.insert("schemaOutput".into(), json!(indep::norm(&format!("{out_dir}/{sch_name}"))));
+        g.insert("schemaOutput".into(), json!(place(out_dir, sch_name, &root)));
     }
     if o.force_module_specifier || r_cfg.chance(1, 4) {
         g.insert("schemaModuleSpecifier".into(), json!("@/generated/schema"));
     }
     if with_schema_output && r_cfg.chance(1, 3) {
-        g.insert("resolversOutput".into(), json!(indep::norm(&format!("{out_dir}/resolvers.d.ts"))));
+        // the resolvers file gets its own directory half of the time
+        let res_dir = if r_cfg.chance(1, 2) { out_dir } else { *r_cfg.pick(&["generated", "src/server", "../server-out", "deep/er/still", "."]) };
+        let res_dir = if res_dir == "../server-out" && depth == 0 { "server-out" } else { res_dir };
+        g.insert("resolversOutput".into(), json!(place(res_dir, "resolvers.d.ts", &root)));
     }
     if r_cfg.chance(1, 3) {
         g.insert("serverGraphqlOutput".into(), json!(indep::norm(&format!("{out_dir}/server-graphql.ts"))));
@@ -326,11 +350,11 @@ pub fn gen_project(rng: &mut Rng, o: &ProjectOpts) -> Project {
     for (k, vals) in [
         ("operationResultTypeSuffix", &["Result", "Res", ""][..]),
         ("variablesTypeSuffix", &["Variables", "Vars"][..]),
-        ("fragmentTypeSuffix", &["", "Fragment"][..]),
+        ("fragmentTypeSuffix", &["", "Fragment", "Doc"][..]),
         ("queryVariableSuffix", &["Query", "Q", ""][..]),
         ("mutationVariableSuffix", &["Mutation", "M"][..]),
         ("subscriptionVariableSuffix", &["Subscription", "Sub"][..]),
-        ("fragmentVariableSuffix", &["", "Doc"][..]),
+        ("fragmentVariableSuffix", &["", "Doc", "Fragment"][..]),
     ] {
         if r_cfg.chance(1, 4) {
             name.insert(k.into(), json!(*r_cfg.pick(vals)));
